@@ -558,6 +558,16 @@ for _cls, _file, _args in (
 ):
     _mk_ctor_flags(_cls, _file, _args)
 
+# FoldReducer.view consumes RecordTensor.select BY CONTRACT (see above); the contract itself - the scalar-time and the
+# tensor-time select, which is what view(time) asks for with a plain float resp. a per-element tensor - is proved in C02
+# and is an obligation of this property too, so that a change inside select is reported here as well
+from pyvc.harness import REGISTRY as _REG  # noqa: E402
+from . import c02_select as _c02  # noqa: E402,F401
+
+for _cd in list(_REG.get("C02", [])):
+    if _cd.name in ("RecordTensor.select[scalar]", "RecordTensor.select[tensor]") and not any(x.name == _cd.name for x in _REG.get(P, [])):
+        contract(P, _cd.name, list(_cd.targets), min_obligations=_cd.min_obligations)(_cd.fn)
+
 MUTANTS = [
     dict(file=RS, func="EMAReducer.__init__", old="FoldReducer.__init__(self, step_time, duration, inclusive, inplace, 0)", new="FoldReducer.__init__(self, step_time, duration, inplace, inclusive, 0)", contracts=["EMAReducer.__init__[record configuration]"], name="seed C07g: inclusive and inplace swapped on the way to the base class"),
     dict(file=RT, func="CumulativeTraceReducer.fold", old="            tolerance=self.tolerance,\n", new="", contracts=["CumulativeTraceReducer.forward"], name="seed C07f: the configured matching tolerance is not handed to the trace kernel"),
